@@ -111,7 +111,7 @@ def parseCase (case : String) : Except String (Cfg × List Op) :=
         | none => .error "bad-op"
         | some os =>
           -- `parse_options`: `tabstop = max(1, tabstop_str.parse().unwrap_or(8))`
-          .ok ({ rev := rev == "1", tabstop := max 1 ts, noHscroll := nh == "1", keepRight := kr == "1",
+          .ok ({ rev := rev == "1" || rev == "2", tabstop := max 1 ts, noHscroll := nh == "1", keepRight := kr == "1",
                  skip := if sk = 0 then none else some (Char.ofNat sk) }, os)
       | _, _ => .error "bad-config"
     | _ => .error "bad-config"
